@@ -621,4 +621,8 @@ VARIANTS += [
     silent('r10-twin-registry-update', ['C01'], [('autobean_refactor/models/internal/registry.py', "    TREE_MODELS[cls.RULE] = cls\n", "    TREE_MODELS.update({cls.RULE: cls})\n")]),
     fire('r10-raw-index-identity-first', ['C10', 'C05'], [(PR, "    def __deepcopy__(self, memo: dict[int, Any]) -> 'RepeatedNodeWrapper':\n        repeated = copy.deepcopy(self._repeated, memo)\n        return RepeatedNodeWrapper(repeated, self._field)", "    def index(self, value: Any, start: int = 0, stop: Optional[int] = None) -> int:\n        items = self._repeated.items\n        candidates = range(*slice(start, stop).indices(len(items)))\n        for i in candidates:\n            if items[i] is value:\n                return i\n        for i in candidates:\n            if items[i] == value:\n                return i\n        raise ValueError(f'{value!r} is not in list')\n\n    def __deepcopy__(self, memo: dict[int, Any]) -> 'RepeatedNodeWrapper':\n        repeated = copy.deepcopy(self._repeated, memo)\n        return RepeatedNodeWrapper(repeated, self._field)")], 'NODE-SEM'),
     silent('r10-twin-raw-index-single-pass', ['C10', 'C05', 'C03', 'C19'], [(PR, "    def __deepcopy__(self, memo: dict[int, Any]) -> 'RepeatedNodeWrapper':\n        repeated = copy.deepcopy(self._repeated, memo)\n        return RepeatedNodeWrapper(repeated, self._field)", "    def index(self, value: Any, start: int = 0, stop: Optional[int] = None) -> int:\n        items = self._repeated.items\n        for i in range(*slice(start, stop).indices(len(items))):\n            if items[i] is value or items[i] == value:\n                return i\n        raise ValueError(f'{value!r} is not in list')\n\n    def count(self, value: Any) -> int:\n        return sum(1 for item in self._repeated.items if item is value or item == value)\n\n    def __contains__(self, value: Any) -> bool:\n        return any(item is value or item == value for item in self._repeated.items)\n\n    def __deepcopy__(self, memo: dict[int, Any]) -> 'RepeatedNodeWrapper':\n        repeated = copy.deepcopy(self._repeated, memo)\n        return RepeatedNodeWrapper(repeated, self._field)")]),
+    fire('r10-editor-crc-only', ['C16'], [(ED, "import pathlib\n", "import pathlib\nimport zlib\n"), (ED, "        yield file\n\n        updated_text = printer.print_model(file, io.StringIO()).getvalue()\n        if updated_text != text:", "        checksum = zlib.crc32(text.encode())\n        del text\n\n        yield file\n\n        updated_text = printer.print_model(file, io.StringIO()).getvalue()\n        if zlib.crc32(updated_text.encode()) != checksum:")], 'ED-SEM'),
+    silent('r10-twin-editor-crc-fastpath', ['C16', 'C20', 'C05'], [(ED, "import pathlib\n", "import pathlib\nimport zlib\n"), (ED, "        yield file\n\n        updated_text = printer.print_model(file, io.StringIO()).getvalue()\n        if updated_text != text:", "        checksum = zlib.crc32(text.encode())\n\n        yield file\n\n        updated_text = printer.print_model(file, io.StringIO()).getvalue()\n        if zlib.crc32(updated_text.encode()) != checksum or updated_text != text:")]),
+    fire('r10-editor-texts-on-instance', ['C16'], [(ED, "        texts = dict[str, str]()\n", "        self._texts = texts = dict[str, str]()\n"), (ED, "        for current_path in set(texts) - set(files):", "        for current_path in set(self._texts) - set(files):"), (ED, "            if updated_text != texts.get(current_path):", "            if updated_text != self._texts.get(current_path):")], 'ED-SEM'),
+    silent('r10-twin-editor-texts-also-on-instance', ['C16'], [(ED, "        texts = dict[str, str]()\n", "        self._last_texts = texts = dict[str, str]()\n")]),
 ]
